@@ -30,7 +30,7 @@ REACH = [
 PLAN = {
     "quick": {"shards": 4, "cases": 1200, "timeout_s": 900, "min_evaluations": 4000,
               "min_counters": {"child_results_compared": 32000, "application_orders_recorded": 32000, "empty_results_checked": 400}},
-    "thorough": {"shards": 16, "cases": 600, "timeout_s": 3300, "min_evaluations": 9000,
+    "thorough": {"shards": 16, "cases": 1600, "timeout_s": 3300, "min_evaluations": 9000,
                  "min_counters": {"child_results_compared": 400000}},
 }
 COMPETE = ["srvq", "zzcorp", "lab.zz", "nodeq", "2.3", "230.230", "10.2", "aa:b", "ff", "password", "example", "host", "keyword",
